@@ -308,3 +308,88 @@ Proof.
   change (g_year (o_gdt o)) with (gd_year (mkgdate (o_wall o))). change (g_month (o_gdt o)) with (gd_month (mkgdate (o_wall o))).
   change (g_day (o_gdt o)) with (gd_day (mkgdate (o_wall o))). rewrite (date_rebuild (o_wall o) (conj R M)). reflexivity.
 Qed.
+
+(* ---------- Interval.__abs__ / __neg__ ---------- *)
+Theorem glue_interval_abs g : glue_Interval___abs___delta g = glue_Interval_new_delta (gv_start g) (gv_end g) true.
+Proof. unfold glue_Interval___abs___delta. destruct (glue_Interval_new_delta _ _ _); reflexivity. Qed.
+Theorem glue_interval_neg g : glue_Interval___neg___delta g = glue_Interval_new_delta (gv_end g) (gv_start g) (gv_abs g).
+Proof. unfold glue_Interval___neg___delta. destruct (glue_Interval_new_delta _ _ _); reflexivity. Qed.
+
+(* against Model/IntervalLen.v ival_abs / ival_neg: the Interval they build from the stored endpoints (the delta; whole record by glue_interval_make) *)
+Theorem glue_interval_abs_model g : obj_ok (gv_start g) -> obj_ok (gv_end g) ->
+  glue_Interval___abs___delta g = interval_new_delta (ep_of (gv_start g)) (ep_of (gv_end g)) true.
+Proof. intros. rewrite glue_interval_abs. apply glue_interval_new; assumption. Qed.
+Theorem glue_interval_neg_model g : obj_ok (gv_start g) -> obj_ok (gv_end g) ->
+  glue_Interval___neg___delta g = interval_new_delta (ep_of (gv_end g)) (ep_of (gv_start g)) (gv_abs g).
+Proof. intros. rewrite glue_interval_neg. apply glue_interval_new; assumption. Qed.
+
+(* -i of an ABSOLUTE Interval: absolute is passed on, so the swap of __new__ undoes the exchange of the endpoints: the delta of -i equals the delta
+   of i itself whenever start <= end (the listed finding neg-absolute-interval) *)
+Theorem neg_of_absolute_is_not_negated a b : obj_ok a -> obj_ok b -> obj_gt a b = Ok false -> obj_gt b a = Ok true ->
+  glue_Interval___neg___delta (mkgiv a b true) = glue_Interval_new_delta a b true.
+Proof.
+  intros Ka Kb G1 G2. rewrite glue_interval_neg. cbn [gv_start gv_end gv_abs]. rewrite !glue_new_is_spec. unfold spec_new.
+  rewrite G1, G2. cbn [bind].
+  destruct (is_dt b && negb (is_dt a) || negb (is_dt b) && is_dt a) eqn:E1;
+  destruct (is_dt a && negb (is_dt b) || negb (is_dt a) && is_dt b) eqn:E2; try reflexivity;
+  try (exfalso; destruct (is_dt a), (is_dt b); cbn in E1, E2; congruence).
+  destruct (is_dt b && is_dt a && (is_none (o_tz b) && negb (is_none (o_tz a)) || negb (is_none (o_tz b)) && is_none (o_tz a))) eqn:E3;
+  destruct (is_dt a && is_dt b && (is_none (o_tz a) && negb (is_none (o_tz b)) || negb (is_none (o_tz a)) && is_none (o_tz b))) eqn:E4; try reflexivity;
+  exfalso; destruct (is_dt a), (is_dt b), (is_none (o_tz a)), (is_none (o_tz b)); cbn in E3, E4; congruence.
+Qed.
+
+(* ---------- the operand normalisation of `-` = normalise_operand of the model; self - other / other - self as WHOLE results ---------- *)
+Lemma norm_operand_ep self other : obj_ok other -> is_dt other = true ->
+  match norm_operand self other with
+  | Ok p => normalise_operand (ep_of other) = Ok (ep_of p) /\ obj_ok p
+  | Raise e => normalise_operand (ep_of other) = Raise e
+  end.
+Proof.
+  intros K Dt. pose proof K as (Kk & R & F & D & T). unfold norm_operand, normalise_operand. cbn [e_native e_dt ep_of]. rewrite Dt. cbn [negb].
+  destruct (is_pdt other) eqn:P; cbn [negb].
+  - assert (Pd : is_pdate other = true) by (unfold is_pdt, is_pdate in *; lia). rewrite Pd. cbn [negb]. split; [reflexivity|exact K].
+  - assert (Pd : is_pdate other = false) by (unfold is_dt, is_pdt, is_pdate in *; lia). rewrite Pd. cbn [negb].
+    rewrite (aware_ep other K). destruct (is_none (o_tz other)) eqn:N; cbn [negb].
+    + rewrite (glue_naive_operand other R). split.
+      * unfold ep_of, is_dt, is_pdate, tz_idz. cbn [o_kind o_tz o_wall o_fold Z.eqb Pos.eqb orb negb e_zone e_W].
+        destruct (o_tz other); [discriminate|]. reflexivity.
+      * repeat split; cbn [o_kind o_wall o_fold o_tz]; try lia; try exact R; auto.
+        all: try (exfalso; match goal with H : is_dt _ = false |- _ => unfold is_dt in H; cbn [o_kind Z.eqb Pos.eqb orb] in H; discriminate end).
+        all: match goal with E : o_tz _ = Some _ |- _ => cbn [o_tz] in E; discriminate end.
+    + pose proof (init_norm_ep other K) as I. unfold init_norm in I. rewrite Pd, Dt in I. cbn [negb] in I.
+      unfold glue_pendulum_instance in I. rewrite Pd, Dt in I. cbn [andb negb] in I.
+      change (o_instance self other) with (o_dt_instance other (Some g_UTC)).
+      destruct (o_dt_instance other (Some g_UTC)) as [p|x]; cbn [bind] in I; exact I.
+Qed.
+
+Theorem glue_dt_sub_whole self other : obj_ok self -> obj_ok other -> is_dt other = true ->
+  dt_sub (ep_of self) (ep_of other) =
+  match norm_operand self other with Ok p => interval_make (ep_of p) (ep_of self) false | Raise e => Raise e end.
+Proof.
+  intros Ks Ko Dt. unfold dt_sub, dt_diff. pose proof (norm_operand_ep self other Ko Dt) as N.
+  destruct (norm_operand self other) as [p|x]; [destruct N as [E _]|]; rewrite ?E, ?N; reflexivity.
+Qed.
+
+Theorem glue_dt_rsub_whole self other : obj_ok self -> obj_ok other -> is_dt other = true ->
+  dt_rsub (ep_of self) (ep_of other) =
+  match norm_operand self other with Ok p => interval_make (ep_of self) (ep_of p) false | Raise e => Raise e end.
+Proof.
+  intros Ks Ko Dt. unfold dt_rsub, dt_diff. pose proof (norm_operand_ep self other Ko Dt) as N.
+  destruct (norm_operand self other) as [p|x]; [destruct N as [E _]|]; rewrite ?E, ?N; reflexivity.
+Qed.
+
+(* ... and the DELTA of that Interval is what the translated __sub__ / __rsub__ compute *)
+Theorem glue_dt_sub_delta self other : obj_ok self -> obj_ok other -> is_dt other = true ->
+  glue_DateTime___sub___datetime self other =
+  bind (normalise_operand (ep_of other)) (fun o => interval_new_delta o (ep_of self) false).
+Proof.
+  intros Ks Ko Dt. rewrite glue_dt_sub_datetime. pose proof (norm_operand_ep self other Ko Dt) as N.
+  destruct (norm_operand self other) as [p|x]; [destruct N as [E Kp]|]; rewrite ?E, ?N; cbn [bind]; [apply glue_interval_new; assumption|reflexivity].
+Qed.
+Theorem glue_dt_rsub_delta self other : obj_ok self -> obj_ok other -> is_dt other = true ->
+  glue_DateTime___rsub__ self other =
+  bind (normalise_operand (ep_of other)) (fun o => interval_new_delta (ep_of self) o false).
+Proof.
+  intros Ks Ko Dt. rewrite glue_dt_rsub. pose proof (norm_operand_ep self other Ko Dt) as N.
+  destruct (norm_operand self other) as [p|x]; [destruct N as [E Kp]|]; rewrite ?E, ?N; cbn [bind]; [apply glue_interval_new; assumption|reflexivity].
+Qed.
